@@ -125,6 +125,7 @@ class SimNet:
         self.log = []  # WireEvent
         self.sent = 0
         self._delivering = None
+        self.unreachable = {}  # (ip, port) or ip -> errno: sendmsg towards it fails synchronously (ENETUNREACH, EPERM ...)
         self.on_event = []  # callbacks(WireEvent) for online monitors
         self.after_delivery = []  # callbacks() at quiescent points
 
@@ -281,6 +282,11 @@ class FakeSock:
             src_ip = self.addr[0] if self.addr and self.addr[0] != "::" else self.net_default_ip
         src = (src_ip, self.addr[1] if self.addr else 0)
         dst = (norm_ip(address[0]), address[1])
+        err = self.net.unreachable.get(dst, self.net.unreachable.get(dst[0]))
+        if err:
+            # the operating system refuses the datagram right away: nothing reaches the wire
+            self.net._emit(WireEvent(self.net.loop.time(), "senderror", src, dst, data, note="errno %d" % err))
+            raise OSError(err, "simulated synchronous send failure")
         self.net.send(src, dst, data)
         return len(data)
 
